@@ -104,8 +104,7 @@ GateOf(c) ==
     [] pc[c] = "J_snapE"    -> [fn |-> "(*Session).Entities:RLock",                      lock |-> <<"emu", s>>,    mode |-> "R"]
     [] pc[c] = "J_snapC"    -> [fn |-> "(*EntityComponentStore).ListAll:RLock",          lock |-> <<"ecs", s>>,    mode |-> "R"]
     [] pc[c] = "J_bcast"    -> [fn |-> "(*Session).Broadcast:RLock",                     lock |-> <<"pmu", s>>,    mode |-> "R"]
-    [] pc[c] = "M_get"      -> [fn |-> "(*Session).ModuleState:RLock",                   lock |-> <<"mmu", s>>,    mode |-> "R"]
-    [] pc[c] = "M_set"      -> [fn |-> "(*Session).SetModuleState:Lock",                 lock |-> <<"mmu", s>>,    mode |-> "W"]
+    [] pc[c] = "M_init"     -> [fn |-> "(*Session).ModuleStateOrSet:Lock",               lock |-> <<"mmu", s>>,    mode |-> "W"]
     [] pc[c] = "M_state"    -> [fn |-> "(*State).EntityActions:RLock",                   lock |-> <<"vmu", conn[c].ms>>, mode |-> "R"]
     [] pc[c] = "V_disc"     -> [fn |-> "(*Session).EntityByID:RLock",                    lock |-> <<"emu", s>>,    mode |-> "R"]
     [] pc[c] = "V_discrm"   -> [fn |-> "(*State).RemoveEntityActions:Lock",              lock |-> <<"vmu", conn[c].ms>>, mode |-> "W"]
@@ -181,6 +180,10 @@ SetLoc(c, l)     == loc' = [loc EXCEPT ![c] = l]
 \* where the leave sequence begins (modules first: vikja HandleDisconnect walks the participant's entity ids)
 LeaveEntry(c) == IF Vikja /\ conn[c].own # {} THEN "V_disc" ELSE "L_unsub"
 
+\* a join request that is refused while its connection stays in a session still goes through the module pass
+\* (HandleWithModule runs for every message of a joined connection): vikja answers it with its state
+JoinModulePass(c) == IF Vikja /\ conn[c].pid # 0 THEN Goto(c, "M_state") /\ Keep(c) ELSE Finish(c)
+
 Begin(c) ==
   /\ Idle(c) /\ prog[c] # <<>> /\ Head(prog[c]).k # "Barrier"
   /\ Serial => \A d \in Conns : Idle(d)
@@ -203,7 +206,7 @@ Start(c) ==
   /\ LET r == loc[c].req IN
      CASE r.k = "Join" ->
             IF conn[c].sess # 0 /\ r.sid # 0 /\ objs[conn[c].sess].id = r.sid
-            THEN /\ out' = Send(out, c, Err(r.rid, ALREADY_JOINED)) /\ Finish(c)
+            THEN /\ out' = Send(out, c, Err(r.rid, ALREADY_JOINED)) /\ JoinModulePass(c)
             ELSE /\ Goto(c, "J_lookup") /\ Keep(c) /\ out' = out
        [] r.k = "Disc" ->
             IF conn[c].pid = 0 THEN Finish(c) /\ out' = out
@@ -226,7 +229,7 @@ J_lookup(c) ==           \* session, ok := Sessions.GetByGlobalID(req.SessionId)
       found == r.sid # 0 /\ r.sid \in DOMAIN reg
       l == [loc[c] EXCEPT !.ok = found, !.s = IF found THEN reg[r.sid] ELSE 0] IN
   IF ~found /\ r.sid # 0
-  THEN /\ out' = Send(out, c, Err(r.rid, NOT_FOUND)) /\ Finish(c)
+  THEN /\ out' = Send(out, c, Err(r.rid, NOT_FOUND)) /\ JoinModulePass(c)
        /\ UNCHANGED <<reg, sidgen, gauge, objs, mst, conn, held>>
   ELSE /\ out' = out
        /\ IF conn[c].pid # 0
@@ -310,25 +313,20 @@ J_snapC(c) ==            \* session.GetEntityComponents().ListAll(); respond.Sen
 J_bcast(c) ==            \* session.Broadcast(participant, ParticipantJoinBroadcast); then the modules
   LET s == loc[c].s IN
   /\ out' = Bcast(out, Others(s, c), JoinB(loc[c].pid))
-  /\ IF Vikja THEN Goto(c, "M_get") /\ Keep(c) ELSE Finish(c)
+  /\ IF Vikja THEN Goto(c, "M_init") /\ Keep(c) ELSE Finish(c)
   /\ UNCHANGED <<reg, sidgen, gauge, objs, mst, conn, held>>
 
 (***************************************************************************)
-(* vikja: Init (check, then act) and the state handed to the newcomer      *)
+(* vikja: Init (the state of the session is looked up, or created and      *)
+(* registered, under one lock) and the state handed to the newcomer        *)
 (***************************************************************************)
-M_get(c) ==              \* state, ok := s.ModuleState("vikja")
+M_init(c) ==             \* state := s.ModuleStateOrSet("vikja", ..)
   LET s == loc[c].s IN
   /\ IF objs[s].ms # 0
-     THEN /\ conn' = [conn EXCEPT ![c].ms = objs[s].ms] /\ Goto(c, "M_state")
-     ELSE /\ conn' = conn /\ Goto(c, "M_set")
-  /\ Keep(c)
-  /\ UNCHANGED <<reg, sidgen, gauge, objs, mst, held, out>>
-
-M_set(c) ==              \* s.SetModuleState("vikja", &State{})
-  LET s == loc[c].s IN
-  /\ mst' = Append(mst, Empty)
-  /\ objs' = [objs EXCEPT ![s].ms = Len(mst) + 1]
-  /\ conn' = [conn EXCEPT ![c].ms = Len(mst) + 1]
+     THEN /\ conn' = [conn EXCEPT ![c].ms = objs[s].ms] /\ UNCHANGED <<mst, objs>>
+     ELSE /\ mst' = Append(mst, Empty)
+          /\ objs' = [objs EXCEPT ![s].ms = Len(mst) + 1]
+          /\ conn' = [conn EXCEPT ![c].ms = Len(mst) + 1]
   /\ Goto(c, "M_state") /\ Keep(c)
   /\ UNCHANGED <<reg, sidgen, gauge, held, out>>
 
@@ -564,7 +562,7 @@ Body(c) ==
     [] pc[c] = "J_pid"      -> J_pid(c)      [] pc[c] = "J_addp"     -> J_addp(c)     [] pc[c] = "J_recheck" -> J_recheck(c)
     [] pc[c] = "J_undo"     -> J_undo(c)     [] pc[c] = "J_hf"       -> J_hf(c)       [] pc[c] = "J_hfid"    -> J_hfid(c)
     [] pc[c] = "J_snapP"    -> J_snapP(c)    [] pc[c] = "J_snapE"    -> J_snapE(c)    [] pc[c] = "J_snapC"   -> J_snapC(c)
-    [] pc[c] = "J_bcast"    -> J_bcast(c)    [] pc[c] = "M_get"      -> M_get(c)      [] pc[c] = "M_set"     -> M_set(c)
+    [] pc[c] = "J_bcast"    -> J_bcast(c)    [] pc[c] = "M_init"     -> M_init(c)
     [] pc[c] = "M_state"    -> M_state(c)    [] pc[c] = "V_disc"     -> V_disc(c)     [] pc[c] = "V_discrm"  -> V_discrm(c)
     [] pc[c] = "L_unsub"    -> L_unsub(c)    [] pc[c] = "L_ent"      -> L_ent(c)      [] pc[c] = "L_entcomp" -> L_entcomp(c)
     [] pc[c] = "L_entrm"    -> L_entrm(c)    [] pc[c] = "L_entb"     -> L_entb(c)     [] pc[c] = "L_cancel"  -> L_cancel(c)
@@ -689,7 +687,7 @@ RelayBeforeSnapshot(ms, waiting) ==
   ELSE RelayBeforeSnapshot(Tail(ms), waiting)
 D9Symptom  == \E c \in Conns : RelayBeforeSnapshot(out[c], FALSE)
 
-\* D13: two overlapping first joins each created the module state; one connection works on a private one
+\* D13 (repaired: ModuleStateOrSet): a connection works on a module state that is not the session's
 D13Symptom == Vikja /\ \E c \in Conns : Joined(c) /\ conn[c].ms # 0 /\ objs[conn[c].sess].ms # conn[c].ms
 
 \* D15: the module state handed to a newcomer is read after (or before) a change whose core part the snapshot
@@ -720,6 +718,33 @@ Inapplicable(ms, E, snap) ==
   ELSE Inapplicable(Tail(ms), E, snap)
 D16Symptom == \E c \in Conns : Inapplicable(out[c], {}, FALSE)
 
+\* D17: two writers of the same key - storing an action and relaying it are two critical sections, so the relays of
+\* two concurrent actions can reach a member in the opposite order of the stores: it is handed an older action after
+\* a newer one and, applying relays as they come, ends with the older
+RECURSIVE OlderAfterNewer(_, _)
+OlderAfterNewer(ms, latest) ==
+  IF ms = <<>> THEN FALSE ELSE
+  LET m == Head(ms) IN
+  IF m.t = "JOIN_RESPONSE" THEN OlderAfterNewer(Tail(ms), Empty)
+  ELSE IF m.t = "VIKJA_STATE" THEN OlderAfterNewer(Tail(ms), [e \in {a.eid : a \in m.acts} |-> (CHOOSE a \in m.acts : a.eid = e).v])
+  ELSE IF m.t \in {"ACTION_RESPONSE", "ACTION_BROADCAST"}
+       THEN (m.eid \in DOMAIN latest /\ m.v < latest[m.eid]) \/ OlderAfterNewer(Tail(ms), Put(latest, m.eid, m.v))
+  ELSE OlderAfterNewer(Tail(ms), latest)
+D17Symptom == \E c \in Conns : OlderAfterNewer(out[c], Empty)
+
+\* D18: an action outlives its entity - a departure clears the actions of the leaver's entities (module pass) before
+\* it removes the entities; an action set in between stays in the module state of the session for good
+D18Symptom == Vikja /\ \E s \in Rng(reg) : objs[s].ms # 0 /\ \E e \in DOMAIN mst[objs[s].ms] : e \notin DOMAIN objs[s].ents
+
+\* witnesses: a state at rest in which convergence has failed in the given way (TLC's counterexample to W_x is a
+\* shortest schedule that produces it; tools/relayconc_check.py forces it on the real handlers)
+W_D9  == ~(AtRest /\ ~ConvBody /\ D9Symptom)
+W_D13 == ~(AtRest /\ ~ConvBody /\ D13Symptom)
+W_D15 == ~(AtRest /\ ~ConvBody /\ D15Symptom /\ ~D9Symptom)
+W_D16 == ~(AtRest /\ ~ConvBody /\ D16Symptom /\ ~D9Symptom)
+W_D17 == ~(AtRest /\ ~ConvBody /\ D17Symptom /\ ~D9Symptom /\ ~D15Symptom /\ ~D16Symptom)
+W_D18 == ~(AtRest /\ ~ConvBody /\ D18Symptom /\ ~D9Symptom /\ ~D15Symptom /\ ~D16Symptom /\ ~D17Symptom)
+
 \* convergence can only fail in one of these ways
-ConvUnlessKnown == Conv \/ D9Symptom \/ D13Symptom \/ D15Symptom \/ D16Symptom
+ConvUnlessKnown == Conv \/ D9Symptom \/ D13Symptom \/ D15Symptom \/ D16Symptom \/ D17Symptom \/ D18Symptom
 =============================================================================
